@@ -45,24 +45,27 @@ def nums(xs):
 
 
 INF = float("inf")
-BOX_OK = ("cma", "cmsa", "ecma")      # optimizers declaring CAN_SOLVE_CONSTRAINED
+SOFTBOX_OK = ("cma", "cmsa")      # rank by the unpenalized fitness; see gen_opt
 
 
-def gen_objective(r, allow_box=True):
-    k = r.below(3)
-    if k == 0:
-        n = r.choice([2, 3, 4, 5, 6, 8])
-        ops, kind = ["obj sphere %d" % n], "sphere"
-    elif k == 1:
-        n = r.choice([2, 3, 3, 4, 5])
+def gen_objective(r, allow_box=True, kinds=("sphere", "quad", "rosen", "plateau"), dims=None):
+    kind = r.choice(list(kinds))
+    if kind == "sphere":
+        n = r.choice(dims or [1, 1, 2, 3, 4, 5, 6, 8])
+        ops = ["obj sphere %d" % n]
+    elif kind == "plateau":
+        n = r.choice(dims or [1, 2, 3, 4])
+        ops = ["obj plateau %d" % n]        # floor(4|x|^2)/4: ties between different points in every generation
+    elif kind == "quad":
+        n = r.choice(dims or [1, 2, 3, 3, 4, 5])
         M = [[r.range(-2, 2) for _ in range(n)] for _ in range(n)]
         kk = r.choice([1, 2, 4])
         A = [[sum(M[t][i] * M[t][j] for t in range(n)) + (kk if i == j else 0) for j in range(n)] for i in range(n)]
         b = [r.range(-4, 4) for _ in range(n)]
-        ops, kind = ["obj quad %d %s %s" % (n, nums(x for row in A for x in row), nums(b))], "quad"
+        ops = ["obj quad %d %s %s" % (n, nums(x for row in A for x in row), nums(b))]
     else:
-        n = r.choice([2, 3, 4])
-        ops, kind = ["obj rosen %d" % n], "rosen"
+        n = r.choice(dims or [1, 2, 3, 4])   # rosen 1 is the constant objective 0: every comparison is a tie
+        ops = ["obj rosen %d" % n]
     box = None
     if allow_box and r.chance(1, 3):
         lo = [-(r.choice([1, 2, 4]) / r.choice([1, 2])) for _ in range(n)]
@@ -76,69 +79,109 @@ def gen_objective(r, allow_box=True):
 
 def gen_x0(r, n, box):
     if box:
-        return [box[0][i] + (box[1][i] - box[0][i]) * r.range(0, 8) / 8 for i in range(n)]
-    return [r.range(-16, 16) / 4 for _ in range(n)]
+        return [box[0][i] + (box[1][i] - box[0][i]) * r.range(0, 8) / 8 for i in range(n)], "box"
+    k = r.below(10)
+    if k == 0:
+        return [0.0] * n, "zero"                                        # the optimum of sphere/plateau: value 0 from the start
+    if k == 1:
+        return [r.range(-16, 16) * 2.0 ** 18 for _ in range(n)], "huge"  # ~1e6
+    if k == 2:
+        return [r.range(-16, 16) * 2.0 ** -22 for _ in range(n)], "tiny"  # ~1e-6
+    if k == 3:
+        v = r.range(-8, 8) / 4
+        return [v] * n, "equal-coordinates"
+    return [r.range(-16, 16) / 4 for _ in range(n)], "generic"
 
 
-def gen_opt(r, n, boxed):
-    # soft boxes only for CMA and CMSA, which rank by the unpenalized fitness; ElitistCMA accepts on the *penalized*
-    # fitness and reports the unpenalized one, so with penalties neither monotonicity of the reported value nor rank
-    # invariance can be expected of it (and it refuses declared constraints anyway)
-    kind = r.choice(["cma", "cma", "cmsa"] if boxed else ["cma", "cma", "cma", "cmsa", "ecma", "vdcma", "cem", "simplex"])
-    if kind == "cma":
-        if r.chance(1, 2):
-            lam = r.range(4, 14); mu = r.range(1, lam - 1)
-        else:
-            lam, mu = 0, 0
-        return kind, "opt cma " + nums([lam, mu, r.below(3), r.choice([0, 0, 0.5, 1.0, 2.0])])
-    return kind, "opt " + kind
+SIGMAS = [0, 0, 0, 0.5, 1.0, 2.0, 2.0 ** -20, 2.0 ** 20]
+
+
+def gen_opt(r, n, boxed, kinds=None):
+    """(kind, op line, population class).  Soft boxes only for CMA and CMSA, which rank by the unpenalized fitness;
+    ElitistCMA accepts on the *penalized* fitness and reports the unpenalized one, so with penalties neither monotonicity
+    of the reported value nor rank invariance can be expected of it (and it refuses declared constraints anyway)"""
+    kind = r.choice(kinds or (["cma", "cma", "cmsa"] if boxed else ["cma", "cma", "cma", "cmsa", "cmsa", "ecma", "ecma", "vdcma", "vdcma", "cem", "simplex"]))
+    sigma = r.choice(SIGMAS)
+    if kind == "simplex":
+        return kind, "opt simplex", "-"
+    if kind == "ecma":
+        return kind, "opt ecma " + nums([0, 0, 0, sigma]), "-"
+    k = r.below(5)
+    if k <= 1:
+        lam, mu, pc = 0, 0, "default"
+    elif k == 2:
+        lam, mu, pc = 2, 1, "lambda=2"                        # smallest admissible population
+    elif k == 3:
+        lam = r.range(3, 16); mu = r.range(1, lam - 1); pc = "small"
+    else:
+        lam = r.choice([40, 64, 100, 200]) if n <= 3 else r.choice([30, 50, 80]); pc = "large-vs-n"   # mu_eff >> n^2: c_mu cap active
+        mu = r.choice([lam // 2, lam // 4, lam - 1, 1])
+    if kind == "cem" and lam:
+        lam = max(lam, 4); mu = max(2, min(mu, lam - 1))      # variance of a single parent is 0 for ever
+    return kind, "opt %s %s" % (kind, nums([lam, mu, r.below(3), sigma])), pc
 
 
 def gen_run_case(r, maxsteps):
     ops, n, kind, box = gen_objective(r)
-    okind, oline = gen_opt(r, n, box is not None)
+    okind, oline, pc = gen_opt(r, n, box is not None)
     ops.append(oline)
-    ops.append("run %d %d %s %s" % (r.range(1, 10 ** 6), r.range(1, maxsteps), fb(INF), nums(gen_x0(r, n, box))))
-    return ops
+    x0, xc = gen_x0(r, n, box)
+    ops.append("run %d %d %s %s" % (r.range(1, 10 ** 6), r.range(1, maxsteps), fb(INF), nums(x0)))
+    return ops, {"pop": pc, "x0": xc}
 
 
 def gen_conv_case(r, steps):
-    n = r.choice([2, 3, 4, 5])
-    kind = r.choice(["cma", "cma", "cmsa", "ecma", "vdcma"])
-    budget = {"cma": steps, "cmsa": steps, "vdcma": 2 * steps, "ecma": 12 * steps}[kind]
-    return ["obj sphere %d" % n, "opt " + kind,
-            "run %d %d %s %s" % (r.range(1, 10 ** 6), budget, fb(1e-10), nums(gen_x0(r, n, None)))]
+    kind = r.choice(["cma", "cma", "cmsa", "ecma", "vdcma", "cem", "simplex"])
+    n = r.choice([1, 2, 3, 4, 5]) if kind != "vdcma" else r.choice([2, 3, 4, 5, 6, 8])
+    budget = {"cma": steps, "cmsa": steps, "vdcma": 2 * steps, "ecma": 12 * steps, "cem": steps, "simplex": 3 * steps}[kind]
+    # CEM converges linearly to the precision of its variance estimate; the default variance 100 needs more steps
+    target = {"cem": 1e-6}.get(kind, 1e-10)
+    x0 = [r.range(-16, 16) / 4 for _ in range(n)]
+    return ["obj sphere %d" % n, "opt " + kind, "run %d %d %s %s" % (r.range(1, 10 ** 6), budget, fb(target), nums(x0))]
 
 
 def gen_trace_case(r, maxsteps):
-    ops, n, kind, box = gen_objective(r)
-    if r.chance(1, 2):
-        lam = r.range(4, 12); mu = r.range(1, lam - 1)
-    else:
+    ops, n, kind, box = gen_objective(r, dims=None)
+    k = r.below(4)
+    if k <= 1:
         lam, mu = 0, 0
+    elif k == 2:
+        lam = r.range(2, 12); mu = r.range(1, lam - 1)
+    else:
+        lam = r.choice([24, 40, 64]); mu = r.choice([lam // 2, lam // 4])
     ops.append("opt cma " + nums([lam, mu, r.below(3), r.choice([0, 0.5, 1.0])]))
-    ops.append("cmatrace %d %d %s" % (r.range(1, 10 ** 6), r.range(1, maxsteps), nums(gen_x0(r, n, box))))
+    x0, _ = gen_x0(r, n, box)
+    ops.append("cmatrace %d %d %s" % (r.range(1, 10 ** 6), r.range(1, maxsteps), nums(x0)))
     return ops
 
 
+def gen_model_traces(r, quick):
+    return []
+
+
 def gen_coeff_case(r):
+    kind = r.choice(["cma", "cma", "cma", "cmsa", "vdcma", "vdcma", "ecma", "lmcma"])
     n = r.choice(list(range(1, 21)) + [30, 50, 100, 200])
-    if r.chance(1, 2):
-        return ["coeffs %d 0 0 %d" % (n, r.below(3))]
-    lam = r.range(2, 40)
-    return ["coeffs %d %d %d %d" % (n, lam, r.range(1, lam - 1), r.below(3))]
+    if r.chance(1, 2) or kind == "ecma":
+        return ["coeffs %s %d 0 0 %d" % (kind, n, r.below(3))]
+    lam = r.choice([2, 3, r.range(2, 40), r.range(2, 40), r.range(41, 400)])
+    return ["coeffs %s %d %d %d %d" % (kind, n, lam, r.choice([1, lam - 1, r.range(1, lam - 1)]), r.below(3))]
 
 
 def case_info(ops):
-    info = {"opt": "?", "obj": "?", "n": 0, "box": False, "kind": "coeffs", "steps": 0}
+    info = {"opt": "?", "obj": "?", "n": 0, "box": False, "kind": "coeffs", "steps": 0, "lambda": 0}
     for o in ops:
         t = o.split()
         if t[0] == "obj": info["obj"], info["n"] = t[1], int(t[2])
         elif t[0] in ("box", "softbox"): info["box"] = True
-        elif t[0] == "opt": info["opt"] = t[1]
+        elif t[0] == "opt":
+            info["opt"] = t[1]
+            if len(t) > 2: info["lambda"] = int(struct.unpack("<d", struct.pack("<Q", int(t[2][1:], 16)))[0])
         elif t[0] == "run": info["kind"], info["steps"] = "run", int(t[2])
-        elif t[0] == "cmatrace": info["kind"], info["steps"], info["opt"] = "trace", int(t[2]), "cma"
-        elif t[0] == "coeffs": info["opt"] = "cma"
+        elif t[0] in ("cmatrace", "ecmatrace", "cmsatrace", "cemtrace"):
+            info["kind"], info["steps"] = "trace", int(t[2])
+        elif t[0] == "simplexrun": info["kind"], info["steps"], info["opt"] = "trace", int(t[1]), "simplex"
+        elif t[0] == "coeffs": info["opt"], info["n"], info["lambda"] = t[1], int(t[2]), int(t[3])
     return info
 
 
@@ -163,7 +206,7 @@ def run_case(ctx, hcmd, dcmd, ops, timeout=600, stats=None):
     for i, o in enumerate(ops):
         line = r.impl[i] if i < len(r.impl) else ""
         if "!oracle" in line:
-            r.oracle.append(line[:400]); r.ok = False
+            r.oracle.append(line.split(" !oracle")[0][:200] + " ... " + line[line.index("!oracle"):][:300]); r.ok = False
         payload = line.split(" !oracle")[0]
         if o.startswith("coeffs"):
             dops.append(o); expect.append(("equal", payload))
@@ -182,10 +225,11 @@ def run_case(ctx, hcmd, dcmd, ops, timeout=600, stats=None):
                 if r.diff_at is None: r.diff_at, r.why = i, "coefficients-differ"
                 r.ok = False
         elif ex == "verdict":
-            m = re.match(r"ok gens=(\d+) bits=(\d+) tol=(\d+)", got)
+            m = re.match(r"ok gens=(\d+) bits=(\d+) tol=(\d+) ties=(\d+)", got)
             if m and stats is not None:
                 stats["gens_bits"] = stats.get("gens_bits", 0) + int(m.group(2))
                 stats["gens_tol"] = stats.get("gens_tol", 0) + int(m.group(3))
+                stats["gens_skipped_unstable_ties"] = stats.get("gens_skipped_unstable_ties", 0) + int(m.group(4))
             if not m:
                 if r.diff_at is None: r.diff_at, r.why = i, "update-differs:" + got.replace(" ", "-")[:60]
                 r.ok = False
@@ -199,8 +243,10 @@ def classify(ops, res):
         m = re.search(r"ERROR: AddressSanitizer: (\S+)|runtime error: ([^\n]*)", res.stderr)
         tag = (m.group(1) or m.group(2)) if m else "crash"
         return f"crash:{info['opt']}:{tag[:40]}", f"harness aborted ({tag}) on ops {ops}"
-    if info["opt"] == "vdcma" and ("step-size-not-positive" in tags or "non-finite" in tags):
-        return ("F12:vdcma-nan-after-stagnation", f"VD-CMA reports NaN point / value / step size after stagnating on the sphere; ops {ops}")
+    if info["opt"] == "vdcma" and info["kind"] == "coeffs" and info["n"] <= 5 and tags == ["coefficients-inadmissible"]:
+        return ("F14:vdcma-learning-rates-not-positive:n<=5", f"VD-CMA learning rates c1 and cMu are negative (n<5) or zero (n=5): {res.impl[-1][:200]}; ops {ops}")
+    if info["opt"] == "vdcma" and info["n"] <= 5 and tags and set(tags) <= {"step-size-not-positive", "non-finite", "covariance-not-positive-definite", "mean-or-path-non-finite"}:
+        return ("F12:vdcma-nan-after-stagnation", f"VD-CMA reports NaN point / value / step size after stagnating (negative learning rates, F14); ops {ops}")
     if info["opt"] == "cma" and "covariance-not-symmetric" in tags:
         return ("F13:cma-covariance-asymmetry", f"CMA covariance matrix is not symmetric beyond rounding ({res.oracle[0][-150:]}); ops {ops}")
     if tags:
@@ -291,19 +337,31 @@ def run(ctx):
     corpus = load_corpus()
     ctx.cov["corpus_cases"] = len(corpus)
     r = ctx.rng.fork("c11")
-    ncoef, nrun, maxsteps, ntrace, tsteps, nconv, csteps = (120, 70, 40, 30, 12, 6, 400) if ctx.quick else (1500, 700, 150, 300, 40, 60, 600)
+    ncoef, nrun, maxsteps, ntrace, tsteps, nconv, csteps = (160, 110, 40, 30, 12, 10, 400) if ctx.quick else (2000, 900, 150, 300, 40, 80, 600)
     cases = list(corpus)
     cases += [gen_coeff_case(r) for _ in range(ncoef)]
-    cases += [gen_run_case(r, maxsteps) for _ in range(nrun)]
+    for _ in range(nrun):
+        ops, cls = gen_run_case(r, maxsteps)
+        cases.append(ops)
+        ctx.hist("population_class", cls["pop"]); ctx.hist("x0_class", cls["x0"])
     cases += [gen_trace_case(r, tsteps) for _ in range(ntrace)]
+    cases += gen_model_traces(r, ctx.quick)
     cases += [gen_conv_case(r, csteps) for _ in range(nconv)]
     for c in cases:
         i = case_info(c)
-        ctx.hist("case_kind", i["kind"]); ctx.hist("optimizer", i["opt"])
+        ctx.hist("case_kind", i["kind"]); ctx.hist("optimizer", i["opt"] + ":" + i["kind"])
+        ctx.hist("dimension", i["n"])
+        if i["lambda"]:
+            ctx.hist("lambda_over_n", "default" if not i["lambda"] else min(i["lambda"] // max(i["n"], 1), 64) // 4 * 4)
         if i["kind"] != "coeffs":
-            ctx.hist("objective", i["obj"] + ("+box" if i["box"] else "")); ctx.hist("dimension", i["n"])
+            ctx.hist("objective", i["obj"] + ("+box" if i["box"] else ""))
             ctx.hist("steps", min(i["steps"] // 20 * 20, 400))
+            for o in c:
+                if o.startswith("opt ") and len(o.split()) >= 6:
+                    ctx.hist("initial_sigma", struct.unpack("<d", struct.pack("<Q", int(o.split()[5][1:], 16)))[0])
+                    ctx.hist("recombination", int(struct.unpack("<d", struct.pack("<Q", int(o.split()[4][1:], 16)))[0]))
     ctx.cov["evaluations"] = len(cases)
+    ctx.cov["runs_per_run_case"] = "7 (fresh, fresh, re-initialised used object, 3 exact rescalings; same seed)"
     ctx.cov["distinct_nontrivial"] = len({"\n".join(c) for c in cases if case_info(c)["kind"] == "coeffs" or case_info(c)["steps"] >= 5})
     ctx.sample({"ops": cases[len(cases) // 2][:4]})
     correspond(ctx, "K-C11", cases, [exe], [drv])
